@@ -163,6 +163,7 @@ def run(ctx):
     if n < 1:
         ctx.violation("G4.keyword-table", ["anchor"], "sylvia-derive/src", ">= 1 keyword table (sv::msg kinds)", n, "anchor missing")
     grules.rule_g5(ctx)
+    C.corpus_adequacy(ctx, enforce=False)
     ctx.floor("C04.a-partition", 150)
     ctx.floor("C04.b-wrapper-kind", 90)
     ctx.floor("C04.c-entry-point", 60)
